@@ -34,12 +34,14 @@ DOC_FILES = {6: {'big.glsdefs': '%% glossary database written by LaTeX\n' + '%% 
                  + '\\gls@defglossaryentry{ylab}%\n{%\nname={yglsname},%\ntext={yglstext yglstwo},%\n'
                    'plural={yglsplural yglsmany},%\ndescription={yglsdescr},%\nfirst={yglsfirst}%\n}%\n'}}
 MODES = ['plain', 'json', 'xml', 'xml-b', 'html', 'html-link', 'plain-ml', 'json-single', 'plain-ml1', 'xml-ml1']
-TYPES = ['int', 'str', 'null', 'list', 'dict', 'bool', 'float', 'negint', 'bigstr']
+TYPES = ['int', 'str', 'null', 'list', 'dict', 'bool', 'float', 'negint', 'bigstr', 'nan', 'inf', 'hugefloat']
 
 
 def type_value(kind):
     return {'int': 7, 'str': 'x<y>&"z', 'null': None, 'list': [1, 'a'], 'dict': {'value': 3, 'a': {}}, 'bool': True,
-            'float': 2.5, 'negint': -3, 'bigstr': 'line1\nline2\t<b>\x00"'}[kind]
+            'float': 2.5, 'negint': -3, 'bigstr': 'line1\nline2\t<b>\x00"',
+            # numbers that Python's JSON reader accepts and turns into floats that are not finite
+            'nan': float('nan'), 'inf': float('-inf'), 'hugefloat': '@@HUGE@@'}[kind]
 
 
 def base_answer(plain):
@@ -108,7 +110,8 @@ def faults(answer, plain, step=1, layouts=60):
         for t in TYPES:
             a = copy.deepcopy(answer)
             setp(a, p, type_value(t))
-            out.append(('type:%s:%s' % (t, '.'.join(map(str, p))), json.dumps(a).encode(), 0))
+            out.append(('%s:%s:%s' % ('nonfinite' if t in ('nan', 'inf', 'hugefloat') else 'type', t, '.'.join(map(str, p))),
+                        json.dumps(a).replace('"@@HUGE@@"', '1e999').encode(), 0))
     n = len(plain)
     vals = [-1, 0, n - 1, n, n + 1, n + 2, n + 3, 10 ** 6, -10 ** 6, -n]
     for fld in (('offset',), ('length',), ('context', 'offset'), ('context', 'length')):
@@ -261,7 +264,8 @@ class C15(core.Check):
                 by.setdefault(c[3], []).append(c)
             pick = []
             share = {'delete': 160, 'type': 500, 'value': 200, 'string': 320, 'shape': 140, 'truncate': 260,
-                     'truncate-utf8': 120, 'garbage': 40, 'exit': 8, 'valid': 16, 'command-missing': 8, 'layout': 400, 'surrogate': 300, 'server': 120}
+                     'truncate-utf8': 120, 'garbage': 40, 'exit': 8, 'valid': 16, 'command-missing': 8, 'layout': 400, 'surrogate': 300, 'server': 120,
+                     'nonfinite': 240}
             for k, lst in sorted(by.items()):
                 rnd.shuffle(lst)
                 pick += lst[:share.get(k, 20)]
@@ -395,7 +399,7 @@ class C15(core.Check):
 
     def quotas(self, tier):
         q = {'server_replies': 60, 'clean_errors': 300, 'reports_in_file': 100, 'valid_answer_runs': 8}
-        for k in ('delete', 'type', 'value', 'string', 'shape', 'truncate', 'truncate-utf8', 'garbage', 'layout', 'surrogate'):
+        for k in ('delete', 'type', 'value', 'string', 'shape', 'truncate', 'truncate-utf8', 'garbage', 'layout', 'surrogate', 'nonfinite'):
             q['fault_' + k] = 30
         for m in MODES:
             q['mode_' + m] = 60
